@@ -94,3 +94,28 @@ package lnwire
 //@   ensures result1 == nil ==> retn(ReadFull, 1) == nil && retn(makeEmptyMessage, 1) == nil && ret(Decode) == nil &&
 //@           result0 == retn(makeEmptyMessage, 0)
 //@   site call Decode: assert arg(1) == r && arg(2) == pver
+//@
+//@ func ReadAddress
+//@   props C10
+//@   site call ReadFull nth 0: assert arg(0) == addrBuf && len(arg(1)) == 1
+//@   site call ReadFull nth 1: assert len(arg(1)) == 4
+//@   site call ReadFull nth 2: assert len(arg(1)) == 2
+//@   site call ReadFull nth 3: assert len(arg(1)) == 16
+//@   site call ReadFull nth 4: assert len(arg(1)) == 2
+//@   site call ReadFull nth 5: assert len(arg(1)) == 10
+//@   site call ReadFull nth 6: assert len(arg(1)) == 2
+//@   site call ReadFull nth 7: assert len(arg(1)) == 35
+//@   site call ReadFull nth 8: assert len(arg(1)) == 2
+//@   site call ReadFull nth 9: assert len(arg(1)) == 1
+//@   site call ReadFull nth 10: assert len(arg(1)) == hostnameLen[0] && arg(1) == hostname
+//@   site call ReadFull nth 11: assert len(arg(1)) == 2
+//@   site call ReadFull nth 12: assert len(arg(1)) == wrap(addrsLen - 1, 16) || len(arg(1)) + 1 == len(payload)
+//@   site make nth 0: assert arg(len) <= 255
+//@   site make nth 1: assert arg(len) <= 65535
+//@   site return nil as t0: assert descriptor[0] == 0 ==> result0 == 1
+//@   site return nil as t1: assert descriptor[0] == 1 ==> result0 == 7
+//@   site return nil as t2: assert descriptor[0] == 2 ==> result0 == 19
+//@   site return nil as t3: assert descriptor[0] == 3 ==> result0 == 13
+//@   site return nil as t4: assert descriptor[0] == 4 ==> result0 == 38
+//@   site return nil as t5: assert descriptor[0] == 5 ==> result0 == 4 + hostnameLen[0]
+//@   site return nil as t6: assert descriptor[0] > 5 ==> result0 == addrsLen
